@@ -12,6 +12,7 @@ import os
 import subprocess
 import sys
 
+sys.path.insert(0, os.path.dirname(os.path.abspath(__file__)))
 HERE = os.path.dirname(os.path.abspath(__file__))
 SRC = "/repo/src/dpapi_ng"
 
@@ -22,53 +23,9 @@ def mutant(mid, prop, file, old, new, note=""):
     M.append(dict(id=mid, prop=prop, file=file, old=old, new=new, note=note))
 
 
-# ---- C07 ----------------------------------------------------------------------
-mutant(
-    "C07-int-carry-original",
-    "C07",
-    "_asn1.py",
-    '    return int.from_bytes(raw_int, byteorder="big", signed=True), consumed\n',
-    """    b_int = bytearray(raw_int)
-    is_negative = b_int[0] & 0b10000000
-    if is_negative:
-        for i in range(len(b_int)):
-            b_int[i] = 0xFF - b_int[i]
-        for i in range(len(b_int) - 1, -1, -1):
-            if b_int[i] == 0xFF:
-                b_int[i - 1] += 1
-                b_int[i] = 0
-                break
-            else:
-                b_int[i] += 1
-                break
-    int_value = 0
-    for val in b_int:
-        int_value = (int_value << 8) | val
-    if is_negative:
-        int_value *= -1
-    return int_value, consumed
-""",
-    "the pre-fix two's complement decoder",
-)
-mutant("C07-len-127-long", "C07", "_asn1.py", "    if length < 128:\n        b_asn1_data.append(length)", "    if length < 127:\n        b_asn1_data.append(length)", "long form for 127")
-mutant("C07-tag-30-high", "C07", "_asn1.py", "    if tag_number < 31:\n        identifier_octets |= tag_number", "    if tag_number < 30:\n        identifier_octets |= tag_number", "high tag form for 30")
-mutant("C07-neg-7f-corner", "C07", "_asn1.py", "    if is_negative and b_int[-1] == 0x7F:", "    if is_negative and b_int[-1] == 0x7E:", "drop the 0x7F -> append 0xFF corner")
-mutant(
-    "C07-oid-first-arc-original",
-    "C07",
-    "_asn1.py",
-    "    if cmps[0] > 2 or (cmps[0] < 2 and cmps[1] > 39):",
-    "    if cmps[0] > 39 or cmps[1] > 39:",
-    "pre-fix writer check",
-)
-mutant(
-    "C07-reader-long-length-off",
-    "C07",
-    "_asn1.py",
-    "            length += octet_val << (8 * (length_octets - 1 - idx))",
-    "            length += octet_val << (8 * ((length_octets - 1 - idx) % 3))",
-    "length octets beyond 3 wrap (only lengths >= 2^24 affected)",
-)
+from mutant_defs import register  # noqa: E402
+
+register(mutant)
 
 
 def build() -> None:
